@@ -80,7 +80,10 @@ def generate(seed_: int, run: int, info: dict) -> dict:
         if rng.random() < 0.4:
             calls = [{"expr": rng.choice(subset), "dir": "shared"} for _ in range(rng.choice([1, 1, 2]))]
             actors.insert(rng.randrange(len(actors) + 1), {"kind": "legacy", "calls": calls})
-        if FOREIGN_FILES and rng.random() < 0.25:
+        has_legacy = any(a["kind"] == "legacy" for a in actors)
+        if FOREIGN_FILES and rng.random() < 0.25 and not has_legacy:
+            # (never together with a legacy writer: two writers filling one file in place at the same time
+            # leave interleaved bytes, and unpickling those can ask for a multi-gigabyte memo)
             calls = [{"expr": rng.choice(subset), "junk": rng.randrange(64)} for _ in range(rng.choice([1, 1, 2]))]
             actors.insert(rng.randrange(len(actors) + 1), {"kind": "foreign", "calls": calls})
         chunk_modes = rng.choice([[0], [0, 1], [1], [1, 2], [2], [0, 1, 2, 3], [3, 1]])
